@@ -125,6 +125,7 @@ impl TokenBinder {
     }
 
     pub fn exec(&mut self, act: &J) -> Obs {
+        self.cx.set_argdrop(act);
         let env = self.cx.env.clone();
         self.cx.set_seq(self.seq);
         let name = jstr(act, "name");
@@ -175,6 +176,11 @@ impl TokenBinder {
             "TransferOwnership" => {
                 let args: SVec<Val> = svec![&env, a(self, "new").into_val(&env)];
                 self.call(act, "transfer_ownership", args)
+            }
+            "HookOpenWindow" => {
+                let token = self.token.clone();
+                env.as_contract(&token, || axelar_soroban_std::interfaces::verif_open_migration_window(&env));
+                return Obs { ok: true, ret: unit(), ev: vec![], err: String::new() };
             }
             "Clawback" => {
                 let args: SVec<Val> = svec![&env, a(self, "from").into_val(&env), self.amt(act).into_val(&env)];
